@@ -1,5 +1,5 @@
 SPECIFICATION Spec
-CONSTANTS NSubs = 3  NUnits = 4  UsableSet = {1, 2, 3}  Mode = "session"  Grace = 0  MaxEpoch = 0
+CONSTANTS NSubs = 3  NUnits = 4  UsableSet = {1, 2, 3}  Mode = "session"  Grace = 0
 INVARIANTS Unique InRange
 PROPERTIES Idem
 VIEW View
